@@ -732,6 +732,30 @@ DEPS = {
 }
 
 
+# ---- the three cores -------------------------------------------------------------------------------------------------------
+# Waves f, k and l (changes placed outside the anchored files) each found the same thing: about half of them got past the
+# property's own check, every time through a unit of one of three tightly coupled cores that the table above did not yet
+# name for that property.  One row per miss does not converge, so the cores are attached to every property whose mechanism
+# runs through them (a Date is built, compared or converted; a state changes form or is copied; a state changes frame):
+_TIME_CORE = [("beyond/dates/date.py", ["*"]), ("beyond/dates/eop.py", ["*"]), ("beyond/config.py", ["*"]), ("beyond/dates/__init__.py", ["*"])]
+_STATE_CORE = [("beyond/orbits/forms.py", ["*"]), ("beyond/orbits/statevector.py", ["*"]), ("beyond/orbits/orbit.py", ["*"]), ("beyond/constants.py", ["*"]),
+               ("beyond/utils/node.py", ["*"])]
+_FRAME_CORE = [("beyond/frames/frames.py", ["*"]), ("beyond/frames/center.py", ["*"]), ("beyond/frames/orient.py", ["*"]), ("beyond/frames/local.py", ["*"]),
+               ("beyond/frames/iau1980.py", ["*"]), ("beyond/frames/iau2010.py", ["*"]), ("beyond/utils/matrix.py", ["*"]), ("beyond/utils/memoize.py", ["*"]),
+               ("beyond/utils/node.py", ["*"])]
+_CORES = {
+    "time": (_TIME_CORE, "time core: every Date this property's mechanism builds, compares, subtracts or converts goes through date.py / eop.py (and the configuration they read)",
+             ["C02", "C04", "C05", "C06", "C07", "C08", "C09", "C10", "C11", "C12", "C13", "C14", "C16", "C17", "C18", "C19"]),
+    "state": (_STATE_CORE, "state core: the states this property's mechanism receives, copies or returns change form and carry their metadata through forms.py / statevector.py / orbit.py, with the central body's constants",
+              ["C01", "C02", "C04", "C05", "C06", "C07", "C08", "C09", "C10", "C11", "C12", "C13", "C14", "C15", "C16", "C17", "C18", "C19", "C20"]),
+    "frame": (_FRAME_CORE, "frame core: a frame change of a state (or of its covariance) runs Frame.transform, the centre and orientation chains and the Earth-rotation models",
+              ["C02", "C04", "C06", "C07", "C08", "C09", "C10", "C11", "C12", "C13", "C14", "C15", "C17", "C18", "C19", "C20"]),
+}
+for _name, (_files, _why, _props) in _CORES.items():
+    for _p in _props:
+        DEPS.setdefault(_p, []).extend((x, _why) for x in _files)
+
+
 def deps_rule(chk, done):
     """DEP: the direct dependencies of the anchored code outside the anchored files (table above) are proven equal to
     their reference versions.  The report names the reference path from the anchored code to the changed unit."""
